@@ -301,7 +301,7 @@ def make_odd0(r2, pf, mesh):
 
 def gen_plotfile(rng, ndims=None, nlevels=None, payload=None, geo_stream=None,
                  nfields=None, max_blocks=3, allow_repeat=False, layout=None, bf=None, mesh='blocks',
-                 awkward=0.0, odd0=0.0):
+                 awkward=0.0, odd0=0.0, odd_names=0.0):
     """awkward / odd0: probabilities of a geometry whose extent/dx quotient
     rounds below the cell count, and of an odd level-0 cell count.  Both draw
     from a generator derived from (not advancing) rng, so that the other choices
@@ -321,6 +321,22 @@ def gen_plotfile(rng, ndims=None, nlevels=None, payload=None, geo_stream=None,
     else:
         pf.n0, mesh = gen_mesh(rng, pf.ndims, nlevels, pf.bf, max_blocks=max_blocks)
     extra = []
+    if odd_names and r2.random() < odd_names and len(pf.fields) >= 2:
+        # names that only differ by case (the twin of field 0 comes later), names with format / regex
+        # metacharacters, repeated ones among them
+        n = len(pf.fields)
+        kind = r2.choice(['case', 'case', 'percent', 'braces', 'mixed'])
+        f0 = pf.fields[0]
+        twin = f0.swapcase() if f0.swapcase() != f0 else f0 + 'X'
+        if kind in ('case', 'mixed'):
+            pf.fields[r2.randrange(1, n)] = twin
+        if kind in ('percent', 'mixed') and n >= 3:
+            a, b = r2.sample(range(1, n), 2)
+            pf.fields[a] = pf.fields[b] = r2.choice(['conv%', 'eff%%', 'rate_%d', '100%s'])
+        if kind == 'braces' and n >= 3:
+            a, b = r2.sample(range(1, n), 2)
+            pf.fields[a] = pf.fields[b] = r2.choice(['c{0}', 'q{}', 'w[1]', 'd\\d+'])
+        extra.append('names:' + kind)
     if odd0 and r2.random() < odd0:
         pf.n0 = list(pf.n0)
         extra.append('odd0:%d' % make_odd0(r2, pf, mesh))
